@@ -420,8 +420,21 @@ func (spt *Tracker) recoverWithPinInfo(ctx context.Context, pi *api.PinInfo) (*a
 	var err error
 	switch pi.Status {
 	case api.TrackerStatusPinError, api.TrackerStatusUnexpectedlyUnpinned:
+		// re-pin with the options recorded in the shared state
+		var st state.ReadOnly
+		var pin *api.Pin
+		st, err = spt.getState(ctx)
+		if err != nil {
+			logger.Error(err)
+			break
+		}
+		pin, err = st.Get(ctx, pi.Cid)
+		if err != nil { // not in the state (anymore): nothing to re-pin
+			logger.Warn(err)
+			return spt.Status(ctx, pi.Cid), nil
+		}
 		logger.Infof("Restarting pin operation for %s", pi.Cid)
-		err = spt.enqueue(ctx, api.PinCid(pi.Cid), optracker.OperationPin)
+		err = spt.enqueue(ctx, pin, optracker.OperationPin)
 	case api.TrackerStatusUnpinError:
 		logger.Infof("Restarting unpin operation for %s", pi.Cid)
 		err = spt.enqueue(ctx, api.PinCid(pi.Cid), optracker.OperationUnpin)
